@@ -337,8 +337,9 @@ def eval_dyad_find(a, b, backend):
     elif is_dict(a):
         v = a.get(b)
         return KLONG_UNDEFINED if v is None else v
-    if is_list(b) or isinstance(b, str):
-        # strings, characters and symbols are compared as wholes (NumPy would coerce them to '<U' arrays)
+    if is_list(b) or isinstance(b, str) or (bknp.isarray(a) and (a.dtype == object or a.ndim > 1)):
+        # strings, characters and symbols are compared as wholes (NumPy would coerce them to '<U' arrays);
+        # the members of a nested list or matrix are compared as wholes, too
         return bknp.asarray([i for i,x in enumerate(a) if backend.kg_equal(x, b)])
     return bknp.where(bknp.asarray(a) == b)[0]
 
